@@ -292,7 +292,7 @@ def run_prop(ctx):
     ctx.extra["mc_counterexamples"] = mc_hits
     # --- 2. scenarios exported from TLC (simulation walks of the I spec), replayed on the real code
     nwalk = 150 if quick else 1500
-    base = "MC_Overlay_quick.cfg" if quick else "MC_Overlay_2l.cfg"
+    base = "MC_Overlay_2lq.cfg" if quick else "MC_Overlay_2l.cfg"     # two lowers: three-layer union rules on the real code
     cfg = gen_cfg(ctx, base, "export.cfg", known=(), invs=["Export"], consts={"MaxOps": 3})
     r = C.tlc_mc(ctx, "MC_Overlay", cfg=cfg, workers=4, timeout=1200, simulate="num=%d" % nwalk, depth=5, coverage=False, must_cover=False, xmx="3g")
     scns = []
